@@ -534,6 +534,7 @@ type Contract struct {
 	Fresh    []string // results / places declared fresh (not aliasing any input)
 	MaybeNil []string
 	Uses     []string // lemmas (by name) assumed as hypotheses inside this function
+	UsesLate []string // lemmas assumed only at the returns
 	AliasSame map[string]bool // "a|b": aliased slices a and b start at the same element when they share memory
 	Afters   map[string][]*Clause // "pkg.F#k" -> assertions proved (then assumed) right after the block-level statement containing the k-th call of pkg.F
 	Hide     []string // spec functions whose defining axioms (`;@ defines f` in the prelude) are not shipped with this function's VCs
@@ -571,7 +572,7 @@ type ContractSet struct {
 var clauseKeywords = map[string]bool{
 	"func": true, "props": true, "requires": true, "ensures": true, "assigns": true, "loop": true, "alias": true,
 	"inline": true, "trusted": true, "panics": true, "nooverflow": true, "lemma": true, "pure": true, "opaque": true,
-	"extern": true, "assert": true, "fresh": true, "maybenil": true, "package": true, "pred": true, "tagset": true, "aset": true, "reads": true, "inlines": true, "unroll": true, "exit": true, "use": true, "hide": true, "after": true,
+	"extern": true, "assert": true, "fresh": true, "maybenil": true, "package": true, "pred": true, "tagset": true, "aset": true, "reads": true, "inlines": true, "unroll": true, "exit": true, "use": true, "hide": true, "after": true, "uselate": true,
 }
 
 // assignSets: `//@ aset name := $.f, $.g[0:4]` — a reusable list of assigns items, `$` is the argument.
@@ -806,6 +807,20 @@ func (cs *ContractSet) ReadFile(path, pkgName string, external bool) error {
 				i := strings.Index(rest, f[2])
 				_, atags := splitTags(f[2])
 				body := strings.TrimSpace(rest[i+len(f[2]):])
+				// optional ` from a..b`: prove this assertion from the listed earlier assertions of the same anchor only
+				var afrom []int
+				if j := strings.LastIndex(body, " from "); j >= 0 {
+					if a, b, found := strings.Cut(strings.TrimSpace(body[j+6:]), ".."); found {
+						x, e1 := strconv.Atoi(strings.TrimSpace(a))
+						y, e2 := strconv.Atoi(strings.TrimSpace(b))
+						if e1 == nil && e2 == nil {
+							for q := x; q <= y; q++ {
+								afrom = append(afrom, q)
+							}
+							body = strings.TrimSpace(body[:j])
+						}
+					}
+				}
 				e, err := ParseCExpr(body, l.pos)
 				if err != nil {
 					return err
@@ -814,7 +829,7 @@ func (cs *ContractSet) ReadFile(path, pkgName string, external bool) error {
 					cur.Afters = map[string][]*Clause{}
 				}
 				k := callee + "#" + f[1]
-				cur.Afters[k] = append(cur.Afters[k], &Clause{Tags: atags, E: e, Src: body, Pos: l.pos})
+				cur.Afters[k] = append(cur.Afters[k], &Clause{Tags: atags, E: e, Src: body, Pos: l.pos, From: afrom})
 			case "assigns":
 				items := splitTopLevel(rest, ',')
 				for k := 0; k < len(items); k++ {
@@ -938,6 +953,9 @@ func (cs *ContractSet) ReadFile(path, pkgName string, external bool) error {
 				}
 			case "use":
 				cur.Uses = append(cur.Uses, strings.Fields(strings.ReplaceAll(rest, ",", " "))...)
+			case "uselate":
+				// like `use`, but the lemma becomes a hypothesis only at the return statements (for exit / ensures clauses)
+				cur.UsesLate = append(cur.UsesLate, strings.Fields(strings.ReplaceAll(rest, ",", " "))...)
 			case "hide":
 				cur.Hide = append(cur.Hide, strings.Fields(strings.ReplaceAll(rest, ",", " "))...)
 			case "inlines":
